@@ -100,9 +100,9 @@ def main():
                    "source_commits": commits, "add_only": True},
          "engines": [{"name": "tla-model+replay", "path": "/verif/spec + /verif/harness + /verif/scripts/vcheck.py",
                       "serves_properties": [c["property_id"] for c in checks],
-                      "kind_free_text": "explicit TLA+ specification checked by TLC; TLC-generated vectors replayed on the real library with an independent evaluator; recorded traces of the real library validated by TLC"}],
+                      "kind_free_text": "explicit TLA+ specification checked by TLC; TLC-generated vectors replayed on the real library with an independent evaluator; recorded traces of the real library validated by TLC; one inductive invariant (Rng) discharged by Apalache"}],
          "checks": checks,
-         "notes": "See DESIGN.md. Exit codes: 0 held, 1 VIOLATION (+replay file), 2 tool error/timeout/vacuity.",
+         "notes": "See DESIGN.md. Exit codes: 0 held, 1 VIOLATION (+replay file), 2 tool error/timeout/vacuity. Known findings (known_findings.json): D6 under C10, D11 under C11 and C12 - printed as KNOWN-FINDING lines, exit 0. 220 confirmed seeded changes with the catch matrix in seeded/RESULTS.md.",
          "not_applicable": na}
     json.dump(m, open(os.path.join(ROOT, "MANIFEST.json"), "w"), indent=1)
     print("manifest: %d checks, %d not claimed" % (len(checks), len(na)))
